@@ -4,15 +4,16 @@
 // Program::{extend_object, object_with_field_removed}, extend_object_clone_field / _layer; and from
 // program/eval/stdlib.rs the builtin Evaluator::do_std_object_remove_key (std.objectRemoveKey).
 // Hand-written environment: Gc (Rc), interned strings (small ids, ordered by id), FHashMap bound
-// to an association list (shim/vecmap.rs; the extracted text uses only get / iter / collect /
-// default on it).
+// to a two-slot map (shim/slotmap.rs; the extracted text uses only get / iter / collect / default on
+// it; an association list with a symbolic length made every harness of this unit, the canary included,
+// exceed 14 GB - measured).
 #![allow(dead_code, unused)]
 mod u {
 use std::cell::{Cell, OnceCell, RefCell};
 use std::collections::BTreeMap;
 use std::marker::PhantomData;
 use std::rc::Rc;
-//@include shim/vecmap.rs
+//@include shim/slotmap.rs
 #[derive(Clone, Copy, PartialEq, Eq, PartialOrd, Ord, Debug)]
 pub struct InternedStr<'p>(pub u8, pub PhantomData<&'p ()>);
 // shim of interner::SortedInternedStr: orders by string value; here names are ids ordered by id
@@ -82,14 +83,13 @@ mod vharness {
     static ONE_ASSERT: [ir::Assert<'static>; 1] = [ir::Assert(0, PhantomData)];
     fn layer(a: E, b: E) -> ObjectLayer<'static> { layer_a(a, b, false) }
     fn layer_a(a: E, b: E, has_assert: bool) -> ObjectLayer<'static> {
-        let mut fields: FHashMap<InternedStr<'static>, ObjectField<'static>> = FHashMap::default();
-        if let Some(f) = field(a) { fields.insert(NAME, f); }
-        if let Some(f) = field(b) { fields.insert(OTHER, f); }
+        // both slots are always written: which names exist is carried by the Option tags only
+        let fields: FHashMap<InternedStr<'static>, ObjectField<'static>> = FHashMap::from_slots(field(a).map(|f| (NAME, f)), field(b).map(|f| (OTHER, f)));
         ObjectLayer { is_top: false, locals: &[], base_env: None, env: OnceCell::new(), fields, asserts: if has_assert { &ONE_ASSERT } else { &[] } }
     }
     /// object with `n` layers (1..=MAXL); es[i] / os[i] = entries of NAME / OTHER in layer i (0 = top)
     fn object(n: usize, es: &[E; MAXL], os: &[E; MAXL]) -> ObjectData<'static> {
-        let mut supers = Vec::new();
+        let mut supers = Vec::with_capacity(n);
         let mut i = 1;
         while i < n { supers.push(layer(es[i], os[i])); i += 1; }
         ObjectData { self_layer: layer(es[0], os[0]), super_layers: supers, fields_order: OnceCell::new(), asserts_checked: Cell::new(true) }
@@ -117,8 +117,8 @@ mod vharness {
         found
     }
 
-    fn any_object(maxn: usize, maxd: usize) -> (usize, [E; MAXL], [E; MAXL], &'static ObjectData<'static>) {
-        let n: usize = kani::any(); kani::assume(n >= 1 && n <= maxn);
+    /// an object of exactly `n` layers (n is CONCRETE per harness instance) with any entries
+    fn any_object(n: usize, maxd: usize) -> (usize, [E; MAXL], [E; MAXL], &'static ObjectData<'static>) {
         let es = [any_entry(maxd), any_entry(maxd), any_entry(maxd), any_entry(maxd)];
         let os = [any_entry(maxd), any_entry(maxd), any_entry(maxd), any_entry(maxd)];
         // leaked: nothing is dropped in a harness (drop glue of nested Vec/OnceCell is pure cost for CBMC)
@@ -126,11 +126,8 @@ mod vharness {
         (n, es, os, o)
     }
 
-    //@harness props=C07,C01 strength=bounded bound="objects of 1..3 layers, two field names, every combination of per-layer entries {absent, :, ::, :::, removed(d<=3)}" clause="find_field(from, name) returns the first layer at or below `from` that defines the name and is not hidden by a remove marker (has_field accordingly); has_visible_field equals the :, ::, ::: visibility rule" timeout=1200 replay=objlayers
-    #[kani::proof]
-    #[kani::unwind(7)]
-    fn lookup_and_visibility_contract() {
-        let (n, es, os, o) = any_object(3, 3);
+    fn lookup_and_visibility_contract_at(n: usize) {
+        let (n, es, os, o) = any_object(n, 3);
         let from: usize = kani::any(); kani::assume(from < n);
         let got = o.find_field(from, NAME).map(|(i, _)| i);
         assert!(got == spec_lookup(n, &es, from), "C07:objlayers:find-field-is-first-effective-definition");
@@ -138,12 +135,21 @@ mod vharness {
         assert!(o.has_visible_field(NAME) == spec_visible(n, &es), "C07:objlayers:has-visible-field-follows-the-visibility-rules");
         if spec_visible(n, &es) { assert!(spec_lookup(n, &es, 0).is_some(), "C07:objlayers:visible-implies-exists"); }
     }
-
-    //@harness props=C07,C05 strength=bounded bound="objects of 1..3 layers, two field names, every combination of per-layer entries {absent, :, ::, :::, removed(d<=3)}" clause="the field list used by manifestation, std.length, objectFields(All) (get_fields_order) contains a name exactly when field lookup (in, objectHasAll, indexing) finds it, marks it hidden exactly when objectHas says it is not visible, is strictly sorted by name and lists each name once" timeout=1800 replay=objlayers known=D7
+    //@harness props=C07,C01 quickfor=C07,C05 strength=bounded bound="objects of 1..3 layers, two field names, every combination of per-layer entries {absent, :, ::, :::, removed(d<=3)}; this instance: exactly 1 layer" clause="find_field(from, name) returns the first layer at or below `from` that defines the name and is not hidden by a remove marker (has_field accordingly); has_visible_field equals the :, ::, ::: visibility rule" timeout=900 replay=objlayers
     #[kani::proof]
     #[kani::unwind(7)]
-    fn fields_order_agrees_with_lookup() {
-        let (n, es, os, o) = any_object(3, 3);
+    fn lookup_and_visibility_contract_n1() { lookup_and_visibility_contract_at(1); }
+    //@harness props=C07,C01 quickfor=C07,C05 strength=bounded bound="objects of 1..3 layers, two field names, every combination of per-layer entries {absent, :, ::, :::, removed(d<=3)}; this instance: exactly 2 layers" clause="find_field(from, name) returns the first layer at or below `from` that defines the name and is not hidden by a remove marker (has_field accordingly); has_visible_field equals the :, ::, ::: visibility rule" timeout=900 replay=objlayers
+    #[kani::proof]
+    #[kani::unwind(7)]
+    fn lookup_and_visibility_contract_n2() { lookup_and_visibility_contract_at(2); }
+    //@harness props=C07,C01 quickfor=C07,C05 strength=bounded bound="objects of 1..3 layers, two field names, every combination of per-layer entries {absent, :, ::, :::, removed(d<=3)}; this instance: exactly 3 layers" clause="find_field(from, name) returns the first layer at or below `from` that defines the name and is not hidden by a remove marker (has_field accordingly); has_visible_field equals the :, ::, ::: visibility rule" timeout=900 replay=objlayers
+    #[kani::proof]
+    #[kani::unwind(7)]
+    fn lookup_and_visibility_contract_n3() { lookup_and_visibility_contract_at(3); }
+
+    fn fields_order_agrees_with_lookup_at(n: usize) {
+        let (n, es, os, o) = any_object(n, 3);
         //@known D7 kani::assume(!d7_class(n, &es) && !d7_class(n, &os));
         let order = o.get_fields_order();
         let mut seen_name = false; let mut vis_name = V::Hidden;
@@ -162,6 +168,18 @@ mod vharness {
         if seen_name { assert!((vis_name != V::Hidden) == o.has_visible_field(NAME), "C07,C05:objlayers:listed-visibility-agrees-with-objectHas"); }
         if seen_other { assert!((vis_other != V::Hidden) == o.has_visible_field(OTHER), "C07,C05:objlayers:listed-visibility-agrees-with-objectHas"); }
     }
+    //@harness props=C07,C05 strength=bounded bound="objects of 1..3 layers, two field names, every combination of per-layer entries {absent, :, ::, :::, removed(d<=3)}; this instance: exactly 1 layer" clause="the field list used by manifestation, std.length, objectFields(All) (get_fields_order) contains a name exactly when field lookup (in, objectHasAll, indexing) finds it, marks it hidden exactly when objectHas says it is not visible, is strictly sorted by name and lists each name once" timeout=900 replay=objlayers known=D7
+    #[kani::proof]
+    #[kani::unwind(7)]
+    fn fields_order_agrees_with_lookup_n1() { fields_order_agrees_with_lookup_at(1); }
+    //@harness props=C07,C05 strength=bounded bound="objects of 1..3 layers, two field names, every combination of per-layer entries {absent, :, ::, :::, removed(d<=3)}; this instance: exactly 2 layers" clause="the field list used by manifestation, std.length, objectFields(All) (get_fields_order) contains a name exactly when field lookup (in, objectHasAll, indexing) finds it, marks it hidden exactly when objectHas says it is not visible, is strictly sorted by name and lists each name once" timeout=900 replay=objlayers known=D7
+    #[kani::proof]
+    #[kani::unwind(7)]
+    fn fields_order_agrees_with_lookup_n2() { fields_order_agrees_with_lookup_at(2); }
+    //@harness props=C07,C05 strength=bounded bound="objects of 1..3 layers, two field names, every combination of per-layer entries {absent, :, ::, :::, removed(d<=3)}; this instance: exactly 3 layers" clause="the field list used by manifestation, std.length, objectFields(All) (get_fields_order) contains a name exactly when field lookup (in, objectHasAll, indexing) finds it, marks it hidden exactly when objectHas says it is not visible, is strictly sorted by name and lists each name once" timeout=900 replay=objlayers known=D7
+    #[kani::proof]
+    #[kani::unwind(7)]
+    fn fields_order_agrees_with_lookup_n3() { fields_order_agrees_with_lookup_at(3); }
     /// witness class of known finding D7: a `:` definition above a remove marker above a deeper definition
     fn d7_class(n: usize, es: &[E; MAXL]) -> bool {
         let mut i = 0; let mut default_seen = false;
@@ -169,12 +187,9 @@ mod vharness {
         false
     }
 
-    //@harness props=C07 strength=bounded bound="A and B of 1..2 layers each, two names, every entry combination" clause="A + B: the layers of the result are B's layers followed by A's layers, every entry (visibility, remove depth) preserved - so the per-name view of (A + B) + C and A + (B + C) is the same list C ++ B ++ A, and {} + A, A + {} have A's view (an empty layer defines nothing); the object-level asserts of every layer are kept and, if there is any, the result is marked unchecked so that they run against the combined object (late-bound self)" replay=objlayers timeout=1800
-    #[kani::proof]
-    #[kani::unwind(7)]
-    fn extend_object_concatenates_layers() {
-        let (na, ea, oa, a0) = any_object(2, 2);
-        let (nb, eb, ob, b0) = any_object(2, 2);
+    fn extend_object_concatenates_layers_at(na: usize, nb: usize) {
+        let (na, ea, oa, a0) = any_object(na, 2);
+        let (nb, eb, ob, b0) = any_object(nb, 2);
         // any layer of either operand may carry an object-level assert; both operands have been checked already
         let fa: [bool; 2] = [kani::any(), kani::any()]; let fb: [bool; 2] = [kani::any(), kani::any()];
         let with_asserts = |n: usize, es: &[E; MAXL], os: &[E; MAXL], f: &[bool; 2]| -> &'static ObjectData<'static> {
@@ -201,12 +216,25 @@ mod vharness {
         }
         assert!(r.fields_order.get().is_none(), "C07:objlayers:extend-does-not-inherit-a-cached-field-list");
     }
-
-    //@harness props=C07 strength=bounded bound="object of 1..3 layers, two names, every entry combination (remove depth <= 2)" clause="objectRemoveKey(o, name): afterwards the name does not exist (lookup, objectHas, field list), and the other name's existence, defining layer and visibility are exactly what they were" timeout=1800 replay=objlayers known=D7
+    //@harness props=C07 strength=bounded bound="A and B of 1..2 layers each, two names, every entry combination; this instance: A and B of 1 layer each" clause="A + B: the layers of the result are B's layers followed by A's layers, every entry (visibility, remove depth) preserved - so the per-name view of (A + B) + C and A + (B + C) is the same list C ++ B ++ A, and {} + A, A + {} have A's view (an empty layer defines nothing); the object-level asserts of every layer are kept and, if there is any, the result is marked unchecked so that they run against the combined object (late-bound self)" replay=objlayers timeout=900
     #[kani::proof]
     #[kani::unwind(7)]
-    fn remove_key_removes_exactly_the_named_field() {
-        let (n, es, os, o) = any_object(3, 2);
+    fn extend_object_concatenates_layers_1_1() { extend_object_concatenates_layers_at(1, 1); }
+    //@harness props=C07 strength=bounded bound="A and B of 1..2 layers each, two names, every entry combination; this instance: A of 1 layer, B of 2" clause="A + B: the layers of the result are B's layers followed by A's layers, every entry (visibility, remove depth) preserved - so the per-name view of (A + B) + C and A + (B + C) is the same list C ++ B ++ A, and {} + A, A + {} have A's view (an empty layer defines nothing); the object-level asserts of every layer are kept and, if there is any, the result is marked unchecked so that they run against the combined object (late-bound self)" replay=objlayers timeout=900
+    #[kani::proof]
+    #[kani::unwind(7)]
+    fn extend_object_concatenates_layers_1_2() { extend_object_concatenates_layers_at(1, 2); }
+    //@harness props=C07 strength=bounded bound="A and B of 1..2 layers each, two names, every entry combination; this instance: A of 2 layers, B of 1" clause="A + B: the layers of the result are B's layers followed by A's layers, every entry (visibility, remove depth) preserved - so the per-name view of (A + B) + C and A + (B + C) is the same list C ++ B ++ A, and {} + A, A + {} have A's view (an empty layer defines nothing); the object-level asserts of every layer are kept and, if there is any, the result is marked unchecked so that they run against the combined object (late-bound self)" replay=objlayers timeout=900
+    #[kani::proof]
+    #[kani::unwind(7)]
+    fn extend_object_concatenates_layers_2_1() { extend_object_concatenates_layers_at(2, 1); }
+    //@harness props=C07 strength=bounded bound="A and B of 1..2 layers each, two names, every entry combination; this instance: A and B of 2 layers each" clause="A + B: the layers of the result are B's layers followed by A's layers, every entry (visibility, remove depth) preserved - so the per-name view of (A + B) + C and A + (B + C) is the same list C ++ B ++ A, and {} + A, A + {} have A's view (an empty layer defines nothing); the object-level asserts of every layer are kept and, if there is any, the result is marked unchecked so that they run against the combined object (late-bound self)" replay=objlayers timeout=900
+    #[kani::proof]
+    #[kani::unwind(7)]
+    fn extend_object_concatenates_layers_2_2() { extend_object_concatenates_layers_at(2, 2); }
+
+    fn remove_key_removes_exactly_the_named_field_at(n: usize) {
+        let (n, es, os, o) = any_object(n, 2);
         //@known D7 kani::assume(!d7_class(n, &os));
         let before_other = o.find_field(0, OTHER).map(|(i, _)| i);
         let before_vis = o.has_visible_field(OTHER);
@@ -221,12 +249,21 @@ mod vharness {
         while i < order.len() { assert!(order[i].0 != NAME, "C07:objlayers:removed-field-not-listed"); if order[i].0 == OTHER { other_listed = true; assert!((order[i].1 != V::Hidden) == before_vis, "C07:objlayers:other-field-listed-with-its-visibility"); } i += 1; }
         assert!(other_listed == before_other.is_some(), "C07:objlayers:other-field-still-listed");
     }
-
-    //@harness props=C07,C01 strength=bounded bound="object of 1..2 layers, two names, every entry combination; key one of \"a\", \"b\" (interned) or \"zz\" (never interned)" clause="std.objectRemoveKey builtin: for an interned key the result is a NEW object in which the key does not exist - whatever the field's visibility was, hidden fields included - and the other field is untouched; for a key that was never interned (so no object can have it) the original object is returned" timeout=900 replay=objlayers
+    //@harness props=C07 strength=bounded bound="object of 1..3 layers, two names, every entry combination (remove depth <= 2); this instance: exactly 1 layer" clause="objectRemoveKey(o, name): afterwards the name does not exist (lookup, objectHas, field list), and the other name's existence, defining layer and visibility are exactly what they were" timeout=900 replay=objlayers known=D7
     #[kani::proof]
     #[kani::unwind(7)]
-    fn object_remove_key_builtin_contract() {
-        let (n, es, os, o) = any_object(2, 1);
+    fn remove_key_removes_exactly_the_named_field_n1() { remove_key_removes_exactly_the_named_field_at(1); }
+    //@harness props=C07 strength=bounded bound="object of 1..3 layers, two names, every entry combination (remove depth <= 2); this instance: exactly 2 layers" clause="objectRemoveKey(o, name): afterwards the name does not exist (lookup, objectHas, field list), and the other name's existence, defining layer and visibility are exactly what they were" timeout=900 replay=objlayers known=D7
+    #[kani::proof]
+    #[kani::unwind(7)]
+    fn remove_key_removes_exactly_the_named_field_n2() { remove_key_removes_exactly_the_named_field_at(2); }
+    //@harness props=C07 strength=bounded bound="object of 1..3 layers, two names, every entry combination (remove depth <= 2); this instance: exactly 3 layers" clause="objectRemoveKey(o, name): afterwards the name does not exist (lookup, objectHas, field list), and the other name's existence, defining layer and visibility are exactly what they were" timeout=900 replay=objlayers known=D7
+    #[kani::proof]
+    #[kani::unwind(7)]
+    fn remove_key_removes_exactly_the_named_field_n3() { remove_key_removes_exactly_the_named_field_at(3); }
+
+    fn object_remove_key_builtin_contract_at(n: usize) {
+        let (n, es, os, o) = any_object(n, 1);
         let which: u8 = kani::any(); kani::assume(which < 3);
         let key: Rc<str> = if which == 0 { "a".into() } else if which == 1 { "b".into() } else { "zz".into() };
         let had_other = o.find_field(0, if which == 0 { OTHER } else { NAME }).map(|(i, _)| i);
@@ -251,6 +288,14 @@ mod vharness {
         }
         core::mem::forget(e);
     }
+    //@harness props=C07,C01 quickfor=C07,C05 strength=bounded bound="object of 1..2 layers, two names, every entry combination; key one of 'a', 'b' (interned) or 'zz' (never interned); this instance: exactly 1 layer" clause="std.objectRemoveKey builtin: for an interned key the result is a NEW object in which the key does not exist - whatever the field's visibility was, hidden fields included - and the other field is untouched; for a key that was never interned (so no object can have it) the original object is returned" timeout=900 replay=objlayers
+    #[kani::proof]
+    #[kani::unwind(7)]
+    fn object_remove_key_builtin_contract_n1() { object_remove_key_builtin_contract_at(1); }
+    //@harness props=C07,C01 quickfor=C07,C05 strength=bounded bound="object of 1..2 layers, two names, every entry combination; key one of 'a', 'b' (interned) or 'zz' (never interned); this instance: exactly 2 layers" clause="std.objectRemoveKey builtin: for an interned key the result is a NEW object in which the key does not exist - whatever the field's visibility was, hidden fields included - and the other field is untouched; for a key that was never interned (so no object can have it) the original object is returned" timeout=900 replay=objlayers
+    #[kani::proof]
+    #[kani::unwind(7)]
+    fn object_remove_key_builtin_contract_n2() { object_remove_key_builtin_contract_at(2); }
 
     fn any_present(maxd: usize) -> E { let k: u8 = kani::any(); if k % 2 == 0 { E::N(any_vis()) } else { let d: usize = kani::any(); kani::assume(d <= maxd); E::R(d) } }
 
